@@ -123,7 +123,18 @@ def op_break_expr(text):
                     break
 
 
-OPS = [op_indent, op_blank, op_comment, op_semicolon, op_oneline, op_break_expr]
+def op_decorator(text):
+    """@expr  ->  @(  <newline, LESS indentation>  expr)   and   @ \\ <newline> expr"""
+    ls = lines_of(text)
+    for i, l in enumerate(ls):
+        m = re.match(r'^(\s*)@(.+)$', l)
+        if m:
+            ind, expr = m.groups()
+            yield 'decorator-paren-dedent@%d' % i, '\n'.join(ls[:i] + [ind + '@(', expr.strip() + ')'] + ls[i + 1:]) + '\n'
+            yield 'decorator-backslash@%d' % i, '\n'.join(ls[:i] + [ind + '@ \\', ' ' + expr.strip()] + ls[i + 1:]) + '\n'
+
+
+OPS = [op_indent, op_blank, op_comment, op_semicolon, op_oneline, op_break_expr, op_decorator]
 
 
 def variants(text, ref_dump, depth=1):
